@@ -107,6 +107,13 @@ class Resolver:
             inl = self.inliner(new, e)
             if inl is not None:
                 return inl
+        if isinstance(new, ast.IfExp):
+            # `numpy.repeat(x, n) if len(x) == 1 else x`: both arms are normalisations of the same sequence - the
+            # expression form of `if len(x) == 1: x = numpy.repeat(x, n)`
+            a, b = new.body, new.orelse
+            ba, bb = strip_norm(a), strip_norm(b)
+            if key(ba) == key(bb) and (ba is not a or bb is not b) and not isinstance(ba, ast.Constant):
+                return sym("norm", ba, b, a)
         return new
 
     def _index_loop_rewrite(self, e: ast.Subscript, at, depth, stack, bound) -> Optional[ast.AST]:
@@ -116,12 +123,25 @@ class Resolver:
         loopid = None
         if is_sym(idx, "elem") and len(idx.args) == 2:
             it = idx.args[1]
-            if (
-                isinstance(it, ast.Call) and isinstance(it.func, ast.Name) and it.func.id == "range" and len(it.args) == 1
-                and isinstance(it.args[0], ast.Call) and isinstance(it.args[0].func, ast.Name) and it.args[0].func.id == "len"
-                and len(it.args[0].args) == 1
-            ):
-                seq, loopid = it.args[0].args[0], idx.args[0]
+            def length_of(b) -> Optional[ast.AST]:
+                # len(S) | S.size | S.shape[0]
+                if isinstance(b, ast.Call) and isinstance(b.func, ast.Name) and b.func.id == "len" and len(b.args) == 1:
+                    return b.args[0]
+                if isinstance(b, ast.Attribute) and b.attr == "size":
+                    return b.value
+                if isinstance(b, ast.Subscript) and isinstance(b.value, ast.Attribute) and b.value.attr == "shape" and isinstance(b.slice, ast.Constant) and b.slice.value == 0:
+                    return b.value.value
+                return None
+
+            if isinstance(it, ast.Call) and isinstance(it.func, ast.Name) and it.func.id == "range" and len(it.args) == 1:
+                bnd = it.args[0]
+                if length_of(bnd) is not None:
+                    seq, loopid = length_of(bnd), idx.args[0]
+                elif isinstance(bnd, ast.Call) and isinstance(bnd.func, ast.Name) and bnd.func.id == "min" and bnd.args and not bnd.keywords:
+                    # range(min(len(X), len(Y))): the index loop that stops at the shorter sequence, like zip(X, Y)
+                    parts = bnd.args[0].elts if len(bnd.args) == 1 and isinstance(bnd.args[0], (ast.Tuple, ast.List)) else bnd.args
+                    if parts and all(length_of(p_) is not None for p_ in parts):
+                        seq, loopid = length_of(parts[0]), idx.args[0]
         elif is_sym(idx, "idx") and len(idx.args) == 2:
             seq, loopid = idx.args[1], idx.args[0]
         if seq is None:
